@@ -45,7 +45,7 @@ def make_history(path_or_data, seed, nsteps, name=None, guided=True):
         nxt = proj.state_to_json(env.state)
         last = t == nsteps - 1
         reset = bool(d) and not last
-        recs.append({'id': t, 'st': st, 'a': a, 'next': nxt, 'reset': reset, 'r': float(r), 'd': bool(d), 'rtype': type(r).__name__, 'dtype': type(d).__name__})
+        recs.append({'id': t, 'st': st, 'a': a, 'next': nxt, 'reset': reset, 'r': float(r), 'd': bool(d), 'rtype': 'float' if isinstance(r, float) else type(r).__name__, 'dtype': 'bool' if isinstance(d, (bool, __import__('numpy').bool_)) else type(d).__name__})
         if reset:
             env.reset()
             plan = []
